@@ -158,6 +158,11 @@ func (cs *caseSpec) genPart(t *rapid.T, i, nrep int) *bufzoo.SourceSpec {
 	label := fmt.Sprintf("part%d", i)
 	pool := []bufzoo.Kind{bufzoo.CASReader, bufzoo.CASChunkReader, bufzoo.CASReader, bufzoo.CASChunkReader,
 		bufzoo.CASByteSlice, bufzoo.ValidatedByteSlice, bufzoo.ValidatedReaderAt, bufzoo.ErrorBuffer}
+	if i == 0 {
+		// the original is mostly stream-backed: only those get the
+		// handler-equipped wrapper that stitches and retries
+		pool = append(pool, bufzoo.CASReader, bufzoo.CASChunkReader, bufzoo.CASReader, bufzoo.CASChunkReader)
+	}
 	if cs.protoShaped {
 		pool = append(pool, bufzoo.ProtoFromProto, bufzoo.ProtoFromByteSlice, bufzoo.ProtoFromReader)
 	}
